@@ -162,6 +162,64 @@ def late_histories():
     return out
 
 
+TIMEOUT_PREFIXES = [["USER anonymous"], ["USER anonymous", "EPSV", "@data"], ["USER anonymous", "CWD d"],
+                    ["USER anonymous", "RNFR g"], ["USER anonymous", "PASV", "@data", "REST 2"]]
+
+
+def timeout_case(item):
+    """Server(path_timeout=...) with a backend whose calls take longer: the command that hits the timeout still gets
+    exactly one final reply, the session goes on, and once the backend is quick again the session works normally"""
+    from vf import backends
+    from vf.rig import Rig
+    prefix, line = item
+    part = report.Partial()
+    conf = conf_for("memory")
+    spy = backends.SpyControl()
+    rig = Rig(tree=TREE, users=conf.aio_users, spy=spy,
+              server_kwargs={"block_size": 4, "wait_future_timeout": 1, "path_timeout": 0.05})
+    problems = []
+    try:
+        s = rig.sessions[0]
+        rig.ev(0, "@connect")
+        for e in prefix:
+            rig.ev(0, e)
+        spy.delay = 0.125                # every backend call now outlasts path_timeout
+        r = rig.ev(0, line) or []
+        if line.split(" ")[0] in ("STOR", "APPE") and r and r[-1][0][:1] == "1" and s.data is not None:
+            rig.ev(0, "@dsend NEWDATA")
+            r = r + (rig.ev(0, "@dclose") or [])
+        rig.world.settle()
+        rig.collect()
+        r = r + [x for ev, rr in s.transcript[-1:] if ev == "<late>" for x in rr]
+        codes = [c for c, _ in r]
+        finals = [c for c in codes if not c.startswith("1")]
+        if line == "@data":
+            pass
+        elif len(finals) != 1:
+            problems.append({"kind": "not-exactly-one-final-reply-when-the-backend-times-out", "line": line, "got": codes})
+        if s.closed() and line != "QUIT" and "421" not in codes:
+            problems.append({"kind": "session-ended", "line": line, "codes": codes})
+        spy.delay = 0.0
+        if not s.closed():
+            r2 = rig.ev(0, "PWD") or []
+            if [c for c, _ in r2] not in (["257"], ["503"]):
+                problems.append({"kind": "followup-after-timeout", "line": line, "got": [c for c, _ in r2]})
+        part.evaluations += 1
+        part.traces += 1
+        part.transitions += len(prefix) + 2
+        k = report.fp(["timeout", prefix, line])
+        part.states.add(k)
+        if spy.failed or "451" in codes:
+            part.nontrivial.add(k)
+        part.outcomes[report.fp(["timeout", codes])] += 1
+        for p in problems[:1]:
+            part.violation({"kind": p["kind"], "verb": line.partition(" ")[0].upper(), "path_timeout": True},
+                           {"problem": p, "prefix": prefix}, replay={"timeout": [prefix, line]})
+    finally:
+        rig.close()
+    return part
+
+
 def run(tier, seed, t0):
     parts = []
     if tier == "quick":
@@ -189,8 +247,11 @@ def run(tier, seed, t0):
         parts.append(sweep("memory", ["USER anonymous", "PASV", "@data"], REDUCED, 3))
         parts.append(sweep("pathio", ["USER anonymous", "PASV", "@data"], REDUCED, 2))
         parts.append(sweep("memory", ["USER anonymous", "EPSV", "@data", "REST 2"], ALPHABET, 2))
+    parts += report.pmap(timeout_case, [(pre, line) for pre in TIMEOUT_PREFIXES for line in ALPHABET])
     part = report.merge_all(parts)
-    bounds = {"alphabet_size": len(ALPHABET), "reduced_alphabet": len(REDUCED), "tier_depths": "quick: memory 4, pathio 3, async 2; "
+    bounds = {"path_timeout": "every command of the alphabet from %d prefixes on a server with path_timeout=0.05 whose "
+                              "backend calls take 0.125 s" % len(TIMEOUT_PREFIXES),
+              "alphabet_size": len(ALPHABET), "reduced_alphabet": len(REDUCED), "tier_depths": "quick: memory 4, pathio 3, async 2; "
               "thorough: memory 5, pathio 4, async 3", "tree": "d/, d/f, g", "users": ["anonymous", "bob(password, home /d)"]}
     return report.finish(
         PID, tier, seed, "model_checking", part, t0,
@@ -205,6 +266,10 @@ def run(tier, seed, t0):
 def replay(path):
     data = json.loads(open(path).read())
     rp = data["replay"]
+    if "timeout" in rp:
+        part = timeout_case(tuple(rp["timeout"]))
+        print(json.dumps([v["detail"] for v in part.violations], indent=1, default=repr))
+        return 1 if part.violations else 0
     res = run_history(rp["history"], conf_for(rp["backend"]))
     print(json.dumps({"history": rp["history"], "replies": res["obs"], "problems": res["problems"]}, indent=1, default=repr))
     return 1 if res["problems"] else 0
